@@ -27,8 +27,8 @@ func init() {
 	})
 	property(&Property{
 		ID:          "C04",
-		Rules:       []string{"DESC-ROLE", "FIELDPATH-SINGULAR", "RESP-APPLIED", "CT-AGREE", "CE-AGREE", "OFFERS-AGREE", "MD-RESERVED-TABLE", "POOL-FOREIGN", "NEGOTIATE-ADMITS", "MD-GATE-OUT", "OWS-BEFORE-SEP", "RESP-WALK-TOTAL", "SEND-FRAME-FLAG", "SCAN-PROGRESS"},
-		Decides:     "Decides that the header naming the body's type/encoding and the codec/compressor that produced the body are chosen by the same value on every path, that response_body is resolved with its own selector against the reply type and applied on send, that offers come from the very codec map that is indexed, and that handler metadata cannot override Content-Type/Content-Encoding. Also: content negotiation selects an offer only where the Accept entry admits it, on every path; the reserved test sees the key in the table's case. Also: the Accept parser tests for ';', ',' and 'q=' on input whose optional whitespace was skipped. Also: the compressor that wraps the reply is the one registered under the announced Content-Encoding and no other (a variable shared with the request side is refused). Also: the response_body selector is walked to its end for every reply (no stop at an unset field). Also: the compressed-flag byte of every gRPC frame sent agrees with what was done to the payload (set after the last reallocation of the frame buffer, 1 exactly on the paths through the compressor).",
+		Rules:       []string{"DESC-ROLE", "FIELDPATH-SINGULAR", "RESP-APPLIED", "CT-AGREE", "CE-AGREE", "OFFERS-AGREE", "MD-RESERVED-TABLE", "POOL-FOREIGN", "NEGOTIATE-ADMITS", "MD-GATE-OUT", "OWS-BEFORE-SEP", "RESP-WALK-TOTAL", "SEND-FRAME-FLAG", "SCAN-PROGRESS", "TOKEN-CHARSET"},
+		Decides:     "Decides that the header naming the body's type/encoding and the codec/compressor that produced the body are chosen by the same value on every path, that response_body is resolved with its own selector against the reply type and applied on send, that offers come from the very codec map that is indexed, and that handler metadata cannot override Content-Type/Content-Encoding. Also: content negotiation selects an offer only where the Accept entry admits it, on every path; the reserved test sees the key in the table's case. Also: the Accept parser tests for ';', ',' and 'q=' on input whose optional whitespace was skipped. Also: the compressor that wraps the reply is the one registered under the announced Content-Encoding and no other (a variable shared with the request side is refused). Also: the response_body selector is walked to its end for every reply (no stop at an unset field). Also: the compressed-flag byte of every gRPC frame sent agrees with what was done to the payload (set after the last reallocation of the frame buffer, 1 exactly on the paths through the compressor). Also: the Accept parser's token class contains every RFC 7230 tchar.",
 		NotDecided:  "negotiation results for concrete Accept strings; marshalled bytes; whether compression is ever offered.",
 		Assumptions: commonAssumptions,
 	})
